@@ -43,6 +43,12 @@ func Preorder(root *Node) map[*Node]int {
 // RefWalk returns the events of a traversal of root under policy. observe(kind, phase) says
 // whether the visitor has a callback for that kind and phase at all (nil = all).
 func RefWalk(root *Node, policy Policy, observe func(kind, phase string) bool) []WalkEvent {
+	return RefWalkKeys(root, policy, observe, nil)
+}
+
+// RefWalkKeys is RefWalk under a custom key map: allowed[kind][key] says which child slots of a node of that kind
+// are visited (a kind without an entry has no children); nil = every slot.
+func RefWalkKeys(root *Node, policy Policy, observe func(kind, phase string) bool, allowed map[string]map[string]bool) []WalkEvent {
 	var events []WalkEvent
 	idx := Preorder(root)
 	stopped := false
@@ -66,6 +72,9 @@ func RefWalk(root *Node, policy Policy, observe func(kind, phase string) bool) [
 		}
 		for _, c := range n.Children {
 			if c.Key == "Description" || stopped {
+				continue
+			}
+			if allowed != nil && !allowed[n.Kind][c.Key] {
 				continue
 			}
 			if !c.List {
